@@ -87,6 +87,210 @@ def strlit(cps):
     return "[" + ", ".join(map(str, cps)) + "].map(chr).join()"
 
 
+# ------------------------------------------------------------------------------------------------ int <-> digits / text family
+DIG = "0123456789abcdefghijklmnopqrstuvwxyz"
+_TOK = re.compile(r'\(|\)|"(?:\\.|[^"\\])*"|[^\s()"]+')
+
+
+def parse_dump(d):
+    """canonical dump -> nested python value: ints, bools, strs, lists (seq/struct), ('error', msg), or None if unparseable"""
+    toks = _TOK.findall(d)
+    pos = [0]
+
+    def val():
+        if pos[0] >= len(toks) or toks[pos[0]] != "(":
+            raise ValueError(d[:80])
+        pos[0] += 1
+        head = toks[pos[0]]; pos[0] += 1
+        out = None
+        if head == "int":
+            pos[0] += 1
+            out = int(toks[pos[0]]); pos[0] += 1
+        elif head == "bool":
+            out = toks[pos[0]] == "true"; pos[0] += 1
+        elif head == "str":
+            out = undump_str('(str ' + toks[pos[0]] + ')'); pos[0] += 1
+        elif head == "error":
+            out = ("error", toks[pos[0]]); pos[0] += 1
+        elif head in ("seq", "struct"):
+            out = []
+            while toks[pos[0]] != ")":
+                out.append(val())
+        else:
+            raise ValueError(head)
+        if toks[pos[0]] != ")":
+            raise ValueError(d[:80])
+        pos[0] += 1
+        return out
+    try:
+        v = val()
+        return v if pos[0] == len(toks) else None
+    except (ValueError, IndexError):
+        return None
+
+
+def digits_of(x, b):
+    """the documented digits(x, b): little-endian, truncated division (digits of a negative number are negated)"""
+    ds, t = [], abs(x)
+    while t:
+        ds.append(t % b); t //= b
+    return [-d for d in ds] if x < 0 else ds
+
+
+def to_base(x, b):
+    if x == 0:
+        return "0"
+    return ("-" if x < 0 else "") + "".join(DIG[d] for d in reversed(digits_of(abs(x), b)))
+
+
+def digit_numbers(rng, b, kmax, per_k, longs):
+    """numbers built from base-b digit strings, not from magnitudes: b^k, b^k±1, b^k+d, d·b^k, all-(b-1), zero runs straddling
+    every position k = 1…kmax (so that any chunking of the digit string by a machine word — 2^31, 2^32, 2^62…2^64, 10^9, 10^18,
+    10^19, 36^12 … — has a chunk whose top digits are zero), long strings up to 200 digits, and negatives"""
+    def val(ds):   # little-endian digit list
+        v = 0
+        for d in reversed(ds):
+            v = v * b + d
+        return v
+    out = [0, 1, b - 1, b, b + 1]
+    for k in range(1, kmax + 1):
+        bk = b ** k
+        d, d2 = rng.randrange(1, b), rng.randrange(1, b)
+        out += [bk, bk - 1, bk + 1, bk + d, d * bk, d * bk + d2, (b - 1) * bk]
+        for _ in range(per_k):
+            L = k + rng.randrange(1, 8)
+            ds = [rng.randrange(b) for _ in range(L)]
+            ds[-1] = rng.randrange(1, b)
+            lo = k - rng.randrange(0, min(k, 4) + 1)
+            hi = k + rng.randrange(0, 4)
+            if lo == hi:
+                lo = max(0, lo - 1)
+            for i in range(lo, min(L - 1, hi)):
+                ds[i] = 0
+            out.append(val(ds))
+        # exactly the top digit of a would-be chunk of k digits is zero, everything else non-zero
+        ds = [rng.randrange(1, b) for _ in range(k + rng.randrange(1, 4))]
+        ds[k - 1] = 0
+        out.append(val(ds))
+    for _ in range(longs):
+        L = rng.choice([71, 90, 100, 127, 128, 129, 150, 199, 200])
+        kind = rng.randrange(5)
+        if kind == 0:
+            ds = [b - 1] * L
+        elif kind == 1:
+            ds = [0] * (L - 1) + [rng.randrange(1, b)]
+        elif kind == 2:   # alternating blocks of zeros and non-zeros of random widths
+            ds = []
+            while len(ds) < L:
+                w = rng.randrange(1, 25)
+                ds += ([0] * w) if rng.random() < 0.5 else [rng.randrange(1, b) for _ in range(w)]
+            ds = ds[:L - 1] + [rng.randrange(1, b)]
+        elif kind == 3:
+            ds = [rng.randrange(b) for _ in range(L - 1)] + [rng.randrange(1, b)]
+        else:             # sparse: a few non-zero digits
+            ds = [0] * L
+            for _ in range(rng.randrange(1, 5)):
+                ds[rng.randrange(L)] = rng.randrange(1, b)
+            ds[-1] = rng.randrange(1, b)
+        out.append(val(ds))
+    out = sorted(set(out))
+    neg = [-v for v in out if v and rng.random() < 0.3]
+    return out + neg
+
+
+def radix_family(chk, quick):
+    """every conversion route between ints and digit sequences / text, on digit-structured numbers, for every base 2…36
+    (and digits() for larger bases): digits, Horner value of digits (the inverse — the library has no from_digits),
+    digits -> text -> to_int, to_int(text, b) in both letter cases, to_str / f-string, format x X b o with and without '#',
+    hex and binary literals.  Oracle: own digit routine and Python int(s, b).  Three-way with the model (IntB.digits, C14's
+    mirror of the loop in int.rs) for digits."""
+    rng = chk.rng
+    kmax = 70
+    bases = list(range(2, 37))
+    big_bases = [37, 64, 100, 255, 256, 1000, 65536, 10 ** 9, 2 ** 31, 2 ** 32 - 1, 2 ** 32, 10 ** 18, 2 ** 62, 2 ** 63 - 1, 2 ** 63, 2 ** 64, 10 ** 19, 2 ** 64 + 1]
+    progs = []   # (base, kind, items, src, per-item single expression maker, oracle list)
+    for b in bases + big_bases:
+        small = b <= 36
+        nums = digit_numbers(rng, b, kmax if small else 12, (2 if quick else 6) if small else 2, (6 if quick else 30) if small else 3)
+        B = lit(b)
+        arr = "[" + ", ".join(lit(v) for v in nums) + "]"
+        progs.append((b, "digits", nums, f"let r = {arr}.map((x: int)->{{digits(x, {B})}}).to_array();",
+                      lambda v, B=B: f"digits({lit(v)}, {B})", [digits_of(v, b) for v in nums]))
+        progs.append((b, "digits-horner", nums, f"let r = {arr}.map((x: int)->{{digits(x, {B}).reverse().reduce(0, (a: int, d: int)->{{a * {B} + d}})}}).to_array();",
+                      lambda v, B=B: f"digits({lit(v)}, {B}).reverse().reduce(0, (a: int, d: int)->{{a * {B} + d}})", list(nums)))
+        if not small:
+            continue
+        texts = []
+        for v in nums:
+            t = to_base(v, b)
+            assert int(t, b) == v
+            texts.append(t.upper() if rng.random() < 0.3 else t)
+        tarr = "[" + ", ".join(f'"{t}"' for t in texts) + "]"
+        progs.append((b, "to_int", texts, f"let r = {tarr}.map((s: str)->{{to_int(s, {b})}}).to_array();",
+                      lambda t, b=b: f'to_int("{t}", {b})', list(nums)))
+        pos = [v for v in nums if v >= 0]
+        parr = "[" + ", ".join(lit(v) for v in pos) + "]"
+        progs.append((b, "digits-text-to_int", pos,
+                      f'let r = {parr}.map((x: int)->{{if(x == 0, 0, to_int(digits(x, {b}).reverse().map((d: int)->{{"{DIG}"[d]}}).join(), {b}))}}).to_array();',
+                      lambda v, b=b: f'if({lit(v)} == 0, 0, to_int(digits({lit(v)}, {b}).reverse().map((d: int)->{{"{DIG}"[d]}}).join(), {b}))', list(pos)))
+        if b == 10:
+            progs.append((b, "to_str", nums, f"let r = {arr}.map((x: int)->{{to_str(x)}}).to_array();", lambda v: f"to_str({lit(v)})", [str(v) for v in nums]))
+            progs.append((b, "f-string", nums, f'let r = {arr}.map((x: int)->{{f"{{x}}"}}).to_array();', lambda v: f'f"{{{lit(v)}}}"', [str(v) for v in nums]))
+            progs.append((b, "to_int-default", nums, "let r = [" + ", ".join(f'"{v}"' for v in nums) + "].map((s: str)->{to_int(s)}).to_array();",
+                          lambda v: f'to_int("{v}")', list(nums)))
+        if b in (2, 8, 16):
+            m = {2: "b", 8: "o", 16: "x"}[b]
+            for spec, pre in ((m, ""), ("#" + m, "0" + m), (m.upper(), ""), ("#" + m.upper(), "0" + m.upper())):
+                want = [("-" if v < 0 else "") + pre + to_base(abs(v), b) for v in nums]
+                progs.append((b, f"format:{spec}", nums, f'let r = {arr}.map((x: int)->{{format(x, "{spec}")}}).to_array();',
+                              lambda v, spec=spec: f'format({lit(v)}, "{spec}")', want))
+            progs.append((b, "f-string:" + m, nums, f'let r = {arr}.map((x: int)->{{f"{{x:{m}}}"}}).to_array();',
+                          lambda v, m=m: f'f"{{{lit(v)}:{m}}}"', [to_base(v, b) for v in nums]))
+        if b in (2, 16):
+            lits = [v for v in nums if abs(v) < 2 ** 127]
+            pre = {2: "0b", 16: "0x"}[b]
+            srcs = [("-" if v < 0 else "") + pre + to_base(abs(v), b) for v in lits]
+            progs.append((b, "literal", srcs, "let r = [" + ", ".join(f"({t})" for t in srcs) + "];", lambda t: f"({t})", list(lits)))
+
+    resps = run_harness([{"op": "run", "src": p[3], "get": ["r"]} for p in progs], per_req_timeout=120.0)
+    # model: C14's mirror of the digits loop
+    mitems = [(b, v) for b, kind, items, _, _, _ in progs if kind == "digits" for v in items]
+    mres = dict(zip(mitems, run_model([f"int b.digits {v} {b}" for b, v in mitems])))
+
+    def canon_case(kind, v):
+        return v.lower() if isinstance(v, str) and kind.startswith("format:") and kind[-1].isupper() and not kind.startswith("format:#") else v
+    suspects = []
+    for (b, kind, items, src, single, want), r in zip(progs, resps):
+        chk.count(f"radix:{kind}", len(items))
+        chk.evaluations += len(items)
+        if b > 36 or any(abs(w) >= 2 ** 63 for w in want if isinstance(w, int)):
+            chk.nontrivial.add((b, kind))
+        fail = _resp_fail(r)
+        got = parse_dump(r["vals"]["r"]) if fail is None else None
+        if not isinstance(got, list) or len(got) != len(items):
+            suspects += [(b, kind, it, single, w) for it, w in zip(items, want)]     # find the culprit one by one
+            continue
+        for it, w, g in zip(items, want, got):
+            if canon_case(kind, g) != w:
+                suspects.append((b, kind, it, single, w))
+            elif kind == "digits":
+                m = mres[(b, it)]
+                if m != "[" + ",".join(("S " if -2 ** 63 <= d < 2 ** 63 else "L ") + str(d) for d in w) + "]":
+                    chk.violation("tie:digits", f"model digits({it}, {b}) = {m[:200]}, implementation (and oracle) {w[:40]}",
+                                  {"model": f"int b.digits {it} {b}", "src": f"let r = digits({lit(it)}, {lit(b)});"}, no_input=True)
+    # confirm each suspect on its own (this is also the replay)
+    suspects = suspects[:400]
+    dumps = eval_exprs([sg(it) for b, kind, it, sg, w in suspects], chunk=1) if suspects else []
+    for (b, kind, it, sg, w), d in zip(suspects, dumps):
+        g = parse_dump(d)
+        if canon_case(kind, g) == w:
+            continue
+        what = "panic" if d.startswith("panic") else ("error-value" if is_err(d) else ("roundtrip" if kind in ("digits-horner", "digits-text-to_int") else "wrong"))
+        chk.violation(f"lang:radix:{kind.split(':')[0]}:{what}", f"base {b}: {sg(it)} = {d[:300]}; expected {str(w)[:300]}",
+                      {"src": f"let r = {sg(it)};", "get": ["r"], "expected": w if not isinstance(w, int) else str(w), "got": d})
+    chk.sample({"lang": progs[0][4](progs[0][2][-1]), "expected": progs[0][5][-1]})
+
+
 ROW_PRELUDE = "fn verif_row(jd: int)->Sequence<int>{ let d = date(jd); [d::year, d::month, d::day, d.julian_day(), d.weekday()] }\n"
 
 
@@ -388,34 +592,10 @@ def run(chk):
     if mcp != ["err", "err", "ok 128512"]:
         chk.violation("tie:code_point", f"model code_point answers {mcp}", {"model": "conv code_point -"}, no_input=True)
 
-    # ---------------------------------------------------------------------------------------- int <-> text in a base
-    DIG = "0123456789abcdefghijklmnopqrstuvwxyz"
-
-    def to_base(x, b):
-        if x == 0:
-            return "0"
-        ds, t = [], abs(x)
-        while t:
-            ds.append(DIG[t % b]); t //= b
-        return ("-" if x < 0 else "") + "".join(reversed(ds))
-    rexprs, rwant = [], []
-    for _ in range(150 if quick else 5000):
-        x = big(rng)
-        b = rng.randrange(2, 37)
-        txt = to_base(x, b)
-        if rng.random() < 0.3:
-            txt = txt.upper()
-        rexprs.append(f'to_int("{txt}", {b})'); rwant.append(f"(int {'S' if -2**63 <= x < 2**63 else 'L'} {x})")
-        rexprs.append(f"to_int(to_str({lit(x)}))"); rwant.append(rwant[-1])
-        m = rng.choice(["x", "X", "b", "o"])
-        rexprs.append(f'to_int(format(abs({lit(x)}), "{m}"), {dict(x=16, X=16, b=2, o=8)[m]})'); rwant.append(f"(int {'S' if abs(x) < 2**63 else 'L'} {abs(x)})")
-    for e, w, d in zip(rexprs, rwant, eval_exprs(rexprs)):
-        chk.evaluations += 1
-        chk.count("radix")
-        if d != w:
-            chk.violation("lang:radix:roundtrip", f"{e} = {d}, expected {w}", {"src": f"let r = {e};", "get": ["r"]})
-
-    mark("chr/radix")
+    mark("chr")
+    # ---------------------------------------------------------------------------------------- int <-> digits / text in a base
+    radix_family(chk, quick)
+    mark("radix")
     # ---------------------------------------------------------------------------------------- JSON
     ALPH = [34, 92, 47, 8, 9, 10, 12, 13, 0, 1, 31, 127, 32, 97, 98, 122, 65, 48, 0xE9, 0x2028, 0xFFFF, 0xE000, 0xD7FF, 0x1F600, 0x10FFFF]
     SIMPLE_NUMS = [0.0, 1.0, -1.0, 1.5, -2.25, 100.0, 0.5, 1024.0, -0.0048828125, 255.0, 3.0, 1e15]
